@@ -864,6 +864,9 @@ func (s *Server) doModify(cid string, ops []*spb.AFTOperation, resCh chan *spb.M
 		case err != nil:
 			verifTrace("rpcerr", cid)
 			errCh <- err
+			// The error is fatal for the Modify RPC, and the client's stream is
+			// torn down, so the remaining operations must not be processed.
+			return
 		default:
 			verifTrace("resp", cid)
 			resCh <- res
